@@ -66,7 +66,7 @@ def main():
         p = sh([f"{VERIF}/check", c, tier], cwd=VERIF, env=dict(os.environ, AKV_REPO=d))
         viol = [l for l in p.stdout.split("\n") if l.startswith("VIOLATION")]
         det = [l.strip() for l in p.stdout.split("\n") if l.startswith("  [")][:1]
-        res["checks"][c] = dict(exit=p.returncode, caught=p.returncode == 1, secs=round(time.time() - t0, 1),
+        res["checks"][c] = dict(exit=p.returncode, caught=p.returncode == 1 and bool(viol), secs=round(time.time() - t0, 1),
                                 detail=(det or [""])[0][:300], stderr=p.stderr[-300:] if p.returncode == 2 else "")
         for v in viol:
             try: os.remove(v.split("replay=")[1])
